@@ -12,6 +12,7 @@ import Driver.Oracle
 import Driver.Aggsender
 import Driver.CertCodec
 import Driver.BridgeAPI
+import Driver.ReorgSync
 open Driver Aggkit
 
 def keccakStep (_ : Unit) (ws : List String) : Unit × String :=
@@ -37,5 +38,6 @@ def main (args : List String) : IO UInt32 := do
   | ["aggsender"] => loop inp Driver.Aggsender.step {}; return 0
   | ["certcodec"] => loop inp Driver.CertCodec.step (); return 0
   | ["bridgeapi"] => loop inp Driver.BridgeAPI.step {}; return 0
+  | ["reorgsync"] => loop inp Driver.ReorgSync.step {}; return 0
   | ["tree"] => loop inp Driver.Tree.step (Aggkit.TM.init Driver.Tree.H Driver.Tree.N); return 0
   | _ => IO.eprintln "usage: aggkit_driver <scenario>"; return 2
